@@ -91,6 +91,22 @@ class Universe:
             self.keyfn = first
             self.targs = (tuple, int)
             self.wrong = [("wrong_key", ("q", 0)), ("wrong_item", [9, 0])]
+        elif name == "ttuple":
+            # KeyedList[Tuple[str, int], str]: whether an item conforms depends on its CONTENTS (same classes throughout)
+            from typing import Tuple
+
+            self.keys = ["a", "b", "c", "d"][:k]
+            self.specs = [(x, p) for x in self.keys for p in (0, 1)]
+            self.keyfn = first
+            self.targs = (Tuple[str, int], str)
+            self.wrong = [("wrong_item", ("q", "x")), ("wrong_item_existing_key", ("a", "x"))]
+        elif name == "eqrepr":
+            # 1, True and 1.0 are equal Python objects with three different keys under key=repr
+            self.keys = ["1", "True", "1.0"]
+            self.specs = [(x, None) for x in self.keys]
+            self.keyfn = repr
+            self.targs = (object, str)
+            self.wrong = []
         else:
             raise ValueError(name)
         self.int_keys = name == "intkey"
@@ -104,6 +120,8 @@ class Universe:
                 pool[s] = s[0]
             elif self.name == "spec":
                 pool[s] = _spec_classes()["KItem"](key=s[0], value=s[1])
+            elif self.name == "eqrepr":
+                pool[s] = {"1": 1, "True": True, "1.0": 1.0}[s[0]]
             else:
                 pool[s] = (s[0], s[1])
         return pool
@@ -118,6 +136,8 @@ class Universe:
             return obj
         if self.name == "spec":
             return obj.key
+        if self.name == "eqrepr":
+            return repr(obj)
         return obj[0]
 
     def new_container(self, items=()):
@@ -839,7 +859,8 @@ def random_walk(shard):
     return {"violations": rec["violations"], "errors": [], "extra": {"random_extension_steps": steps}}
 
 
-UNIVERSES = ["self", "tuple", "spec", "intkey"]
+UNIVERSES = ["self", "tuple", "spec", "intkey", "ttuple", "eqrepr"]
+ONLY_TYPED = {"ttuple": (True,), "eqrepr": (False,)}
 
 
 def main(run):
@@ -848,13 +869,13 @@ def main(run):
     shards = [
         {"universe": un, "typed": t, "max_items": max_items, "k": 4}
         for un in UNIVERSES
-        for t in (False, True)
+        for t in ONLY_TYPED.get(un, (False, True))
     ]
     for rec in pmap(explore, shards):
         run.merge(rec)
     walks = [
         {"universe": un, "typed": t, "seed": run.seed * 1000 + i, "walks": 20 if quick else 200, "length": 12}
-        for i, (un, t) in enumerate(itertools.product(UNIVERSES, (False, True)))
+        for i, (un, t) in enumerate((un, t) for un in UNIVERSES for t in ONLY_TYPED.get(un, (False, True)))
     ]
     for rec in pmap(random_walk, walks):
         run.merge(rec)
